@@ -59,15 +59,23 @@ func H_RemoteWatchE2E() {
 	var copts []client.AdapterOption
 	// the watch is optionally started from a bookmark the caller obtained earlier; that variant uses the
 	// empty pre-state and retries enabled
-	fromBookmark := verif.Choose("fromBookmark", 2) == 1
-	noRetry := !fromBookmark && verif.Choose("retriesDisabled", 2) == 1
+	steps, slim := 2, false
+	if verif.Tier() == "thorough" && verif.Choose("moreSchedules", 2) == 1 {
+		// thorough = the quick exploration (<=2 steps, delay bound 0) + (<=1 step under delay bound 1, from
+		// one pre-state, retries enabled, not started from a bookmark)
+		steps, slim = 1, true
+	} else {
+		verif.SetPreemptions(0)
+	}
+	fromBookmark := !slim && verif.Choose("fromBookmark", 2) == 1
+	noRetry := !fromBookmark && !slim && verif.Choose("retriesDisabled", 2) == 1
 	if noRetry {
 		copts = append(copts, client.WithDisableWatchRetry())
 	}
 	remoteCore, tr := c11.NewRemoteWithWatch(backend, copts...)
 	remote := state.WrapCore(remoteCore)
 	for _, id := range e2eIDs {
-		if !fromBookmark && verif.Choose("pre", 2) == 1 {
+		if slim && id == e2eIDs[0] || !slim && !fromBookmark && verif.Choose("pre", 2) == 1 {
 			verif.Assert(direct.Create(ctx, tres.NewA(tres.NS, id, "v")) == nil, "pre-state")
 		}
 	}
@@ -208,10 +216,6 @@ func H_RemoteWatchE2E() {
 			}
 			return
 		}
-	}
-	steps := 2
-	if verif.Tier() == "thorough" {
-		steps = 3
 	}
 	breaks, breaksBeforeBookmark := 0, 0
 	for k, n := 0, verif.Choose("steps", steps+1); k < n; k++ {
